@@ -294,14 +294,20 @@ theorem sqlite_v1_hole_skipped :
     (readRow { ints := [3, 9, 9, 9, 2, 10268, 0, 8708, 0, 0, 0, 0, 0, 0, 0, 0], phrase := [0xE6, 0xB8, 0xAC, 0xE8, 0xA9, 0xA6] }).map (·.syls)
       = .ok [10268, 8708] := by decide
 
+/-- a phone that is not a syllable code (C13 F47: `0x6a07`, `0x8208`, …) or is the empty syllable `0x8000` is skipped
+    like the zero padding — such a row is not a valid legacy record (`V1Rec.WF.syl_valid`) -/
+theorem sqlite_v1_invalid_phone_skipped :
+    (readRow { ints := [3, 9, 9, 9, 3, 10268, 27143, 8708, 33288, 32768, 0, 0, 0, 0, 0, 0], phrase := [0xE6, 0xB8, 0xAC, 0xE8, 0xA9, 0xA6] }).map (·.syls)
+      = .ok [10268, 8708] := by decide
+
 /-- non-vacuity: an 11-syllable record is well-formed, and its row has all eleven phone columns set -/
 def v1Eleven : V1Rec :=
   { syls := [10268, 8708, 10268, 8708, 10268, 8708, 10268, 8708, 10268, 8708, 10268], phrase := [0xE5, 0x86, 0x8A],
     orig := 1, user := 5, maxf := 5, len := 11, time := 99 }
 
-example : v1Eleven.WF := ⟨by decide, by decide, by decide, by decide, by decide, by decide⟩
+example : v1Eleven.WF := ⟨by decide, by decide, by decide, by decide, by decide, by decide, by decide⟩
 example : (readRow v1Eleven.row).map (·.syls.length) = .ok 11 := by
-  rw [sqlite_v1_row_complete v1Eleven ⟨by decide, by decide, by decide, by decide, by decide, by decide⟩]; rfl
+  rw [sqlite_v1_row_complete v1Eleven ⟨by decide, by decide, by decide, by decide, by decide, by decide, by decide⟩]; rfl
 example : [v1Eleven].Pairwise (fun a b => v1Key a ≠ v1Key b) := by simp
 
 end SqliteV1
